@@ -85,6 +85,8 @@ class Fragment(AbstractApplication):
         pyld_blk = ctr.block_num(Bundle.BLOCK_NUM_PAYLOAD)
         payload_data = pyld_blk.getfieldval('btsd')
         pyld_blk.delfieldval('btsd')
+        # a decoded bundle also carries the data as (raw) payload of the block
+        pyld_blk.remove_payload()
         payload_size = len(payload_data)
         LOGGER.info('Payload data size %d', payload_size)
         # maximum size of each fragment field
